@@ -7,8 +7,9 @@ import Uquic.Model.Wire.MoreTP
 set_option linter.unusedSimpArgs false
 set_option linter.unusedVariables false
 
-namespace Uquic.Proofs.Wire
-open Uquic.Model.Wire Uquic.Model.Wire.Varint Uquic.Model.Wire.TP
+namespace Uquic.Proofs.WireMore
+open Uquic.Proofs.Wire
+open Uquic.Model.Wire Uquic.Model.Wire.Varint Uquic.Model.Wire.TP Uquic.Model.Wire.TP.RT
 
 /-- the regenerated parameter ids (RFC 9000 §18.2, RFC 9221, reliable-reset and ack-frequency drafts) -/
 theorem tp_ids : idODCID = 0 ∧ idMaxIdleTimeout = 1 ∧ idSRT = 2 ∧ idMaxUDPPayloadSize = 3 ∧ idInitialMaxData = 4
@@ -341,4 +342,4 @@ theorem rn_minAck (v : Nat) (rest : Bytes) (hv : v ≤ maxVarInt8) (h : v * micr
   rw [hw]
   simp [*]
 
-end Uquic.Proofs.Wire
+end Uquic.Proofs.WireMore
